@@ -88,7 +88,9 @@ class Validity:
         boxes.append((ref_in, m.copy(), ref_in.n - 1 - m))
         return Validity(boxes)
 
-    def mask(self, w: np.ndarray, slack: float = 1e-3) -> np.ndarray:
+    def mask(self, w: np.ndarray, slack: float = 1e-6) -> np.ndarray:
+        # slack must stay far below the value tolerance: a sample `slack` outside the FOV blends in that
+        # fraction of the padding value
         ok = np.ones(w.shape[:-1], dtype=bool)
         for ref, lo, hi in self.boxes:
             idx = ref.points(w, WORLD, GRID)
